@@ -387,7 +387,9 @@ def run_case(case):
                     if conn["k"] == "status":
                         return httpx.Response(conn["code"], text="scripted status")
                     stream = ScriptedStream(S)
-                    if case.get("stream_read_timeout"):
+                    if case.get("stream_read_timeout", True):
+                        # like a real transport: every read of the body is bounded by the read
+                        # timeout of the client the stream was opened with (None = unbounded)
                         stream.read_ticks = read_ticks
                     w = Writer(stream, case.get("bounds", []))
                     state["writer"] = w
